@@ -1,3 +1,4 @@
+// c12 drives xfer.XferPipe, the md5 and gzip filters and three test filters.
 package main
 
 import (
@@ -5,6 +6,8 @@ import (
 	"errors"
 	"fmt"
 	"strings"
+
+	. "verifharness/hlib"
 
 	"github.com/henrylee2cn/erpc/v6/xfer"
 	"github.com/henrylee2cn/erpc/v6/xfer/gzip"
@@ -87,35 +90,35 @@ func c12Setup() {
 	md5.Reg('m', "md5")
 	gzip.Reg(gzipRealID, "gzip-real", 5)
 	real, err := xfer.Get(gzipRealID)
-	must(err)
+	Must(err)
 	c12gz = &gzipRecorder{real: real}
 	xfer.Reg(c12gz)
 }
 
-func init() { subcommands["xfer"] = runC12 }
+func main() { runC12(ParseFlags()) }
 
-func c12Payload(cfg *runCfg) ([]byte, string) {
-	r := cfg.rng
+func c12Payload(cfg *RunCfg) ([]byte, string) {
+	r := cfg.Rng
 	switch r.Intn(6) {
 	case 0:
 		return []byte{}, "empty"
 	case 1:
-		return randBytes(r, 1), "one"
+		return RandBytes(r, 1), "one"
 	case 2:
-		n := pickLen(r, []int{15, 16, 17, 63, 64, 65, 255, 256, 257})
-		return randBytes(r, n), "boundary"
+		n := PickLen(r, []int{15, 16, 17, 63, 64, 65, 255, 256, 257})
+		return RandBytes(r, n), "boundary"
 	case 3:
 		n := 1 + r.Intn(600)
 		return bytes.Repeat([]byte{byte(r.Intn(256))}, n), "compressible"
 	case 4:
-		return randBytes(r, 1+r.Intn(300)), "random"
+		return RandBytes(r, 1+r.Intn(300)), "random"
 	default:
 		return []byte(strings.Repeat("erpc-", r.Intn(40))), "text"
 	}
 }
 
-func c12Ids(cfg *runCfg) ([]byte, string) {
-	r := cfg.rng
+func c12Ids(cfg *RunCfg) ([]byte, string) {
+	r := cfg.Rng
 	valid := []byte{1, 2, 3, 'm', 'g'}
 	nogz := []byte{1, 2, 3, 'm'}
 	mk := func(n int, alphabet []byte) []byte {
@@ -133,9 +136,9 @@ func c12Ids(cfg *runCfg) ([]byte, string) {
 	case k < 12:
 		return mk(1+r.Intn(6), nogz), "short-nogz"
 	case k == 12:
-		return mk(pickLen(r, []int{254, 255}), nogz[:3]), "len254-255"
+		return mk(PickLen(r, []int{254, 255}), nogz[:3]), "len254-255"
 	case k == 13:
-		return mk(pickLen(r, []int{256, 257, 300}), nogz[:3]), "too-long"
+		return mk(PickLen(r, []int{256, 257, 300}), nogz[:3]), "too-long"
 	case k < 16:
 		ids := mk(1+r.Intn(6), valid)
 		bad := byte(4 + r.Intn(90))
@@ -150,17 +153,17 @@ func c12Ids(cfg *runCfg) ([]byte, string) {
 	}
 }
 
-func runC12(cfg *runCfg) {
+func runC12(cfg *RunCfg) {
 	c12Setup()
-	st := newStats("C12", cfg)
+	st := NewStats("C12", cfg)
 	st.Rule = "cases = (pipe ids, payload) drawn from id classes {len0,short,short-nogz,len254-255,too-long,unknown-id,md5-outermost,medium} x payload classes {empty,one,boundary,compressible,random,text}; distinct by (ids,payload); non-trivial = pipe length >= 1 and (payload non-empty or an error class)"
-	w := newCaseWriter(cfg)
-	distinct := distinctSet{}
-	for i := 0; i < cfg.n; i++ {
+	w := NewCaseWriter(cfg)
+	distinct := DistinctSet{}
+	for i := 0; i < cfg.N; i++ {
 		ids, idClass := c12Ids(cfg)
 		payload, plClass := c12Payload(cfg)
-		st.count("ids:" + idClass)
-		st.count("payload:" + plClass)
+		st.Count("ids:" + idClass)
+		st.Count("payload:" + plClass)
 		c12gz.tab = c12gz.tab[:0]
 
 		pipe := xfer.NewXferPipe()
@@ -177,7 +180,7 @@ func runC12(cfg *runCfg) {
 		var packed, unpacked []byte
 		var packedOK, unpackedOK bool
 		var corruptIn, corruptObs []string
-		human := fmt.Sprintf("ids=%s payload=%s", hx(ids), hx(payload))
+		human := fmt.Sprintf("ids=%s payload=%s", Hx(ids), Hx(payload))
 		if err == nil {
 			in := append([]byte(nil), payload...)
 			p, perr := pipe.OnPack(in)
@@ -191,7 +194,7 @@ func runC12(cfg *runCfg) {
 				}
 				// property oracle on the implementation alone
 				if !unpackedOK || !bytes.Equal(unpacked, payload) {
-					st.fail(i, "roundtrip", "unpack(pack(x)) != x", human)
+					st.Fail(i, "roundtrip", "unpack(pack(x)) != x", human)
 				}
 				// single-byte corruption, only for pipes without gzip (library behaviour on
 				// corrupted deflate streams is not modelled)
@@ -203,21 +206,21 @@ func runC12(cfg *runCfg) {
 					for k := 0; k < npos; k++ {
 						pos := k
 						if len(packed) > 40 {
-							pos = cfg.rng.Intn(len(packed))
+							pos = cfg.Rng.Intn(len(packed))
 						}
-						nb := packed[pos] ^ byte(1+cfg.rng.Intn(255))
+						nb := packed[pos] ^ byte(1+cfg.Rng.Intn(255))
 						cp := append([]byte(nil), packed...)
 						cp[pos] = nb
 						cu, cerr := pipe.OnUnpack(cp)
-						corruptIn = append(corruptIn, vL(vN(int64(pos)), vB([]byte{nb})))
-						corruptObs = append(corruptObs, vOpt(cu, cerr == nil))
+						corruptIn = append(corruptIn, VL(VN(int64(pos)), VB([]byte{nb})))
+						corruptObs = append(corruptObs, VOpt(cu, cerr == nil))
 						if len(ids) > 0 && ids[0] == 'm' && cerr == nil {
-							st.fail(i, "md5-accepts-corruption", fmt.Sprintf("md5-outermost pipe accepted a payload corrupted at offset %d", pos), human)
+							st.Fail(i, "md5-accepts-corruption", fmt.Sprintf("md5-outermost pipe accepted a payload corrupted at offset %d", pos), human)
 						}
 					}
 				}
 			} else {
-				st.fail(i, "pack-error", "OnPack failed on a valid pipe: "+perr.Error(), human)
+				st.Fail(i, "pack-error", "OnPack failed on a valid pipe: "+perr.Error(), human)
 			}
 		} else {
 			// refused pipes: oracle = the error classes the property names
@@ -228,34 +231,34 @@ func runC12(cfg *runCfg) {
 				}
 			}
 			if !hasUnknown && len(ids) <= 255 {
-				st.fail(i, "append-refused-valid", "Append refused a valid pipe: "+err.Error(), human)
+				st.Fail(i, "append-refused-valid", "Append refused a valid pipe: "+err.Error(), human)
 			}
 		}
 		if err == nil {
 			for _, id := range ids {
 				if id != 1 && id != 2 && id != 3 && id != 'm' && id != 'g' {
-					st.fail(i, "unknown-accepted", "Append accepted an unregistered id", human)
+					st.Fail(i, "unknown-accepted", "Append accepted an unregistered id", human)
 				}
 			}
 			if len(ids) > 255 {
-				st.fail(i, "too-long-accepted", "Append accepted a pipe longer than 255", human)
+				st.Fail(i, "too-long-accepted", "Append accepted a pipe longer than 255", human)
 			}
 		}
 		var gz []string
 		for _, pr := range c12gz.tab {
-			gz = append(gz, vL(vB(pr[0]), vB(pr[1])))
+			gz = append(gz, VL(VB(pr[0]), VB(pr[1])))
 		}
-		w.add(vL(vB(ids), vB(payload), vL(gz...), vL(corruptIn...)),
-			vL(vN(int64(errCode)), vB(gotIDs), vOpt(packed, packedOK), vOpt(unpacked, unpackedOK), vL(corruptObs...)))
-		key := hx(ids) + "/" + hx(payload)
+		w.Add(VL(VB(ids), VB(payload), VL(gz...), VL(corruptIn...)),
+			VL(VN(int64(errCode)), VB(gotIDs), VOpt(packed, packedOK), VOpt(unpacked, unpackedOK), VL(corruptObs...)))
+		key := Hx(ids) + "/" + Hx(payload)
 		if len(ids) >= 1 && (len(payload) > 0 || errCode != 0) {
-			distinct.add(key)
+			distinct.Add(key)
 		}
 		if len(st.Samples) < 5 {
 			st.Samples = append(st.Samples, fmt.Sprintf("%s class=%s/%s err=%d packed_len=%d", human, idClass, plClass, errCode, len(packed)))
 		}
 	}
-	st.Evaluations = cfg.n
+	st.Evaluations = cfg.N
 	st.DistinctNontrivial = len(distinct)
-	st.write(cfg, w)
+	st.Write(cfg, w)
 }
